@@ -11,15 +11,14 @@ None == [some |-> 0]
 Some(v) == [some |-> 1, v |-> v]
 
 Mid(v) == <<193, v>>                        \* result-metadata id of schema version v
-NCols(v) == 1 + v                           \* a int, b text, c2 .. cv int
-ColNames(n) == SubSeq(<<"a", "b", "c2", "c3", "c4", "c5", "c6">>, 1, n)
-ItoS(n) == CASE n = 1 -> "1" [] n = 2 -> "2" [] n = 3 -> "3" [] n = 4 -> "4" [] n = 5 -> "5" [] n = 6 -> "6"
-\* cells as the judge sees them (checks/c14.py renders every cell as a string): ints "i:<n>", text "s:<text>"
-RECURSIVE Dec(_)
-Dec(n) == IF n < 10 THEN <<n>> ELSE Dec(n \div 10) \o <<n % 10>>
-\* row r (0 or 1) of the SELECT for key pk at schema version v, as numbers / version-tagged text
-RowOf(v, pk, r) == <<[k |-> "i", n |-> 10 * pk + r], [k |-> "s", v |-> v]>> \o [i \in 1..(v - 1) |-> [k |-> "i", n |-> 100 * v + i + 1]]
-RowsOf(v, pk) == <<RowOf(v, pk, 0), RowOf(v, pk, 1)>>
+NCols(v) == 1 + v                           \* (design model: every schema version has its own column layout)
+\* the column layout: [extra |-> number of added int columns c2.., bgen |-> version at which column b was last renamed (0: "b")]
+Layout0 == [extra |-> 0, bgen |-> 0]
+BName(g) == CASE g = 0 -> "b" [] g = 2 -> "b2" [] g = 3 -> "b3" [] g = 4 -> "b4" [] g = 5 -> "b5" [] g = 6 -> "b6"
+ColNames(ly) == <<"a", BName(ly.bgen)>> \o SubSeq(<<"c2", "c3", "c4", "c5", "c6">>, 1, ly.extra)
+\* row r (0 or 1) of the SELECT for key pk at schema version v with layout ly; cells as checks/c14.py renders them
+RowOf(v, ly, pk, r) == <<[k |-> "i", n |-> 10 * pk + r], [k |-> "s", v |-> v]>> \o [i \in 1..ly.extra |-> [k |-> "i", n |-> 100 * v + i + 1]]
+RowsOf(v, ly, pk) == <<RowOf(v, ly, pk, 0), RowOf(v, ly, pk, 1)>>
 
 \* what node n answers to an EXECUTE of the SELECT
 ExecReply(ext, ver, isPrepared, rmid, skip) ==
